@@ -138,6 +138,19 @@ class WithProps:
     def m(self): return 3
     attr = 5
 def func(a: int, b: str = "x", *c: float, d: bool = True, **e: bytes) -> int: ...
+class NTSub(NT):
+    def extra(self): return 1
+class CNTSub(CNT):
+    __slots__ = ()
+@dataclasses.dataclass
+class DCSub(DC):
+    c: float = 0.5
+class TDSub(TD):
+    extra: str
+class TDEmpty(typing.TypedDict):
+    pass
+class TDPEmpty(typing.TypedDict, total=False):
+    pass
 class Outer:
     class Mid:
         @dataclasses.dataclass
@@ -182,7 +195,9 @@ def catalogue():
     for c in plain_classes:
         add(f"{c.__module__}.{c.__qualname__}", c, c, flavour="stdlib")
     user = {"DC": "dataclass", "DCF": "dataclass", "NT": "namedtuple", "CNT": "namedtuple", "TD": "typeddict", "TDP": "typeddict",
-            "Plain": "plain", "Slots": "plain"}
+            "Plain": "plain", "Slots": "plain",
+            # subclasses of each structured flavour, and TypedDicts without any key
+            "NTSub": "namedtuple", "CNTSub": "namedtuple", "DCSub": "dataclass", "TDSub": "typeddict", "TDEmpty": "typeddict", "TDPEmpty": "typeddict"}
     for n, fl in user.items():
         add(f"user.{n}", N[n], N[n], flavour=fl)
     for n in ["MyStr", "MyInt", "MyFloat", "MyBytes", "MyDict", "MyList", "MySet", "MyTuple", "MyDate", "MyDatetime", "MyTime",
@@ -498,7 +513,8 @@ def check_special(col):
             if r1[0] == "exc" or bool(r1[1]) != want2:
                 col.violation("agrees-with-runtime", {"predicate": pred, "object": f"instance:{o!r}"}, f"{pred}({o!r}) = {r1[1]!r}, expected {want2}", bucket=pred)
     # signature helpers
-    for name, obj in [("func", N["func"]), ("DC", N["DC"]), ("Plain", N["Plain"]), ("NT", N["NT"])]:
+    for name, obj in [("func", N["func"]), ("DC", N["DC"]), ("Plain", N["Plain"]), ("NT", N["NT"]), ("NTSub", N["NTSub"]),
+                      ("CNTSub", N["CNTSub"]), ("DCSub", N["DCSub"])]:
         col.ev()
         col.nt("signature|" + name)
         r1, _ = call("signature", obj)
@@ -509,6 +525,21 @@ def check_special(col):
     col.ev()
     if r1[0] == "exc" or list(r1[1].parameters) != ["k"] or r1[1].parameters["k"].annotation is not int:
         col.violation("agrees-with-runtime", {"predicate": "signature", "object": "callable:TD"}, f"signature(TD) = {r1[1]!r}", bucket="signature")
+    # TypedDicts of every shape (subclass, no keys at all): keyword parameters = the declared keys, never raises
+    for name in ("TD", "TDP", "TDSub", "TDEmpty", "TDPEmpty"):
+        td = N[name]
+        want = list(typing.get_type_hints(td))
+        for helper in ("signature", "safe_get_params", "get_type_hints", "cached_type_hints"):
+            col.ev()
+            col.nt(f"{helper}|{name}")
+            k, r = tl.call(getattr(I, helper), td)
+            case = {"predicate": helper, "object": "callable:" + name}
+            if k == "exc":
+                col.violation("never-raises", case, f"{helper}({name}) raised {tl.exc_name(r)}", bucket=f"{helper}|typeddict")
+                continue
+            got = list(r.parameters) if helper == "signature" else list(r)
+            if got != want:
+                col.violation("agrees-with-runtime", case, f"{helper}({name}) names {got!r}, the TypedDict declares {want!r}", bucket=f"{helper}|typeddict")
     col.exhaustive_done = True
 
 
